@@ -509,3 +509,52 @@ Example direct_read_skip_env_overshoot :
   = ODone (VExpr (ENamed verb [] [ERaw [120%N] 0] 0)) (mkbuf toks 6)
   /\ read_skip_env verb [] 0 toks = Ok (ENamed verb [] [ERaw [120%N] 0] 0, []).
 Proof. split; vm_compute; reflexivity. Qed.
+
+(* ================================================================= Part 3
+   The constructs that the reader of the unchanged source does not use but the
+   translator accepts (ReadDSL: XStrip XRStrip XStrStartsWith XToTuple XIsNone
+   XLit.. XFormatDyn, str + str): their meaning on concrete values, each line
+   replayed on the implementation (utils.Token / str / tuple). *)
+
+(* Token('  ab ', 3, c).strip() = Token('ab', 5, c);  Token('   ', 3, c).strip() = Token('', 3, c) *)
+Example new_strip :
+  strip_value (VTok [32; 32; 97; 98; 32]%N 3 (Some TText)) = Some (VTok [97; 98]%N 5 (Some TText))
+  /\ strip_value (VTok [32; 32; 32]%N 3 (Some TText)) = Some (VTok [] 3 (Some TText))
+  /\ strip_value (VStr [32; 97; 32]%N) = Some (VStr [97%N]).
+Proof. repeat split; vm_compute; reflexivity. Qed.
+
+(* Token('a**', 2, c).rstrip('*') = Token('a', 2, c);  Token('**', 2, c).rstrip('*') = Token('', 2, c) *)
+Example new_rstrip :
+  rstrip_value [42%N] (VTok [97; 42; 42]%N 2 (Some TText)) = Some (VTok [97%N] 2 (Some TText))
+  /\ rstrip_value [42%N] (VTok [42; 42]%N 2 (Some TText)) = Some (VTok [] 2 (Some TText)).
+Proof. split; vm_compute; reflexivity. Qed.
+
+(* 'verbatim*'.startswith(('lstlisting', 'verb')) ; 'abc'.startswith(()) is False *)
+Example new_startswith :
+  str_starts_with (VStr [118; 101; 114; 98; 97; 116; 105; 109; 42]%N)
+                  (VTuple [VStr [108; 115; 116]%N; VStr [118; 101; 114; 98]%N]) = Some true
+  /\ str_starts_with (VStr [97; 98; 99]%N) (VTuple []) = Some false
+  /\ str_starts_with (VTok [97; 98; 99]%N 0 None) (VStr [97; 98]%N) = Some true.
+Proof. repeat split; vm_compute; reflexivity. Qed.
+
+(* '..%s.. %% ..%d' has the conversions s, d;  a lone '%' at the end and '%q' are not handled *)
+Example new_fmt_convs :
+  fmt_convs [120; 32; 37; 115; 32; 37; 37; 32; 37; 100]%N = Some [false; true]
+  /\ fmt_convs [120; 37]%N = None /\ fmt_convs [37; 113]%N = None.
+Proof. repeat split; vm_compute; reflexivity. Qed.
+
+(* ('x %s ' + 'Instead got %s') % (1,) : TypeError (not enough arguments);
+   ('x %s ' + 'plain') % (1, 2) : TypeError (not all arguments converted);
+   ('x %s ' + 'plain') % (1,) : a string *)
+Example new_fmt_dyn :
+  fmt_dyn (VStr [120; 32; 37; 115; 32; 103; 111; 116; 32; 37; 115]%N) [VInt 1] = FTypeError
+  /\ fmt_dyn (VStr [120; 32; 37; 115; 32; 112]%N) [VInt 1; VInt 2] = FTypeError
+  /\ fmt_dyn (VStr [120; 32; 37; 115; 32; 112]%N) [VInt 1] = FOk.
+Proof. repeat split; vm_compute; reflexivity. Qed.
+
+Example new_misc :
+  to_tuple (VList [VInt 1; VInt 2]) = Some (VTuple [VInt 1; VInt 2])
+  /\ bin_op OAdd (VStr [97%N]) (VStr [98%N]) = Some (VStr [97; 98]%N)
+  /\ lit_lookup [([97%N], VTuple [VInt 0; VInt 0])] (VTok [97%N] 3 None) = DFound (VTuple [VInt 0; VInt 0])
+  /\ lit_lookup [([97%N], VTuple [VInt 0; VInt 0])] (VStr [98%N]) = DMissing.
+Proof. repeat split; vm_compute; reflexivity. Qed.
